@@ -499,6 +499,10 @@ impl Pipe {
             CutKind::WriteErr | CutKind::WriteZero => {}
         }
     }
+    /// an injected read error has been handed to the reader
+    pub fn read_error_delivered(&self) -> bool {
+        self.cut_done && !self.read_err_pending
+    }
     /// Apply the cut right now, wherever the byte count stands.
     pub fn force_cut(&mut self, kind: CutKind) {
         self.cut_at = Some((self.written.len(), kind));
